@@ -10,6 +10,7 @@
 #include "common.h"
 #include "colvarbias_abf.h"
 #include "colvarbias_meta.h"
+#include "colvarbias_opes.h"
 #include "colvargrid.h"
 #include <sys/socket.h>
 #include <fstream>
@@ -155,6 +156,14 @@ static void walker_main(WalkerSpec const &w, int index, int nrep, int sock)
         }
       }
       wr(sock, "V" + o);
+    } else if (cmd[0] == 'O') {  // OPES data: counter, sum of weights, zed, then every kernel (height, centre, sigma)
+      colvarbias_opes *o = dynamic_cast<colvarbias_opes *>(px->bias("o"));
+      std::string t;
+      if (o) {
+        t = std::to_string(o->m_counter) + " " + num(o->m_sum_weights) + " " + num(o->m_zed) + " " + std::to_string(o->m_kernels.size());
+        for (auto const &k : o->m_kernels) t += " " + num(k.m_height) + " " + num(k.m_center[0]) + " " + num(k.m_sigma[0]);
+      }
+      wr(sock, "V" + t);
     } else if (cmd[0] == 'P') {  // probe metadynamics energy at given values: "P v1 v2 ..."
       colvarbias_meta *m = dynamic_cast<colvarbias_meta *>(px->bias("m"));
       std::string o;
@@ -323,6 +332,14 @@ static std::string abf_conf(int freq, bool czar = false)
          "abf {\n name a\n colvars d\n fullSamples 1\n shared on\n sharedFreq " + std::to_string(freq) + "\n outputFreq " + std::to_string(freq) + "\n}\n";
 }
 
+static std::string opes_conf(int pace)
+{
+  return "colvar {\n name d\n width 0.5\n lowerBoundary 1.0\n upperBoundary 3.0\n distance {\n group1 { atomNumbers 1 }\n group2 { atomNumbers 2 }\n }\n}\n"
+         "opes_metad {\n name o\n colvars d\n newHillFrequency " + std::to_string(pace) + "\n barrier 5.0\n gaussianSigma 0.1\n compressionThreshold 0\n multipleReplicas on\n}\n";
+}
+// positions of the OPES walkers: all different, so that every kernel can be attributed to (walker, step)
+static double opes_pos(int w, long s) { return 1.1 + 0.37 * w + 0.09 * s; }
+
 struct AbfCase {
   int n, L, freq;
   bool rendezvous;
@@ -330,6 +347,7 @@ struct AbfCase {
   std::vector<std::vector<int>> word;  // per walker per step: letter = bin*2 + force
   int bound;            // max deviations from the default order
   int rstep = 0;        // exchange step after which all walkers stop and restart (0 = the first one)
+  bool opes = false;    // OPES with multipleReplicas instead of shared ABF (freq = newHillFrequency)
   bool czar = false;    // extended-Lagrangian variable: the CZAR data are gathered on replica 0 when the output is written (end of run)
   int stop_step() const { return rstep ? rstep : freq; }
 };
@@ -365,6 +383,7 @@ static AbfOutcome abf_execute(AbfCase const &c, std::vector<int> const &prefix)
   ctl.rendezvous = c.rendezvous;
   std::vector<WalkerSpec> specs(c.n);
   for (int i = 0; i < c.n; i++) { specs[i].conf = abf_conf(c.freq, c.czar); specs[i].out_prefix = "abf_w" + std::to_string(i); if (c.czar) specs[i].temperature = 300.0; }
+  if (c.opes) for (int i = 0; i < c.n; i++) { specs[i].conf = opes_conf(c.freq); specs[i].temperature = 300.0; }
   std::vector<bool> ended(c.n, false);
   ctl.spawn(specs);
   for (int i = 0; i < c.n; i++) { ctl.w[i].next_step = 0; ctl.w[i].last_step = c.restart_walker >= 0 ? c.stop_step() : c.L - 1; }
@@ -429,7 +448,8 @@ static AbfOutcome abf_execute(AbfCase const &c, std::vector<int> const &prefix)
       Walker &o = ctl.w[a.i];
       long s = o.next_step++;
       int letter = c.word[a.i][s];
-      ctl.start_step(a.i, s, BINV[letter / 2], FRC[letter % 2]);
+      if (c.opes) ctl.start_step(a.i, s, opes_pos(a.i, s), 0.0);
+      else ctl.start_step(a.i, s, BINV[letter / 2], FRC[letter % 2]);
     } else if (a.kind == 1) ctl.deliver(a.i);
     else if (a.kind == 3) { ended[a.i] = true; wr(ctl.w[a.i].fd, "N"); ctl.w[a.i].st = W_RUNNING; ctl.pump(a.i); }
     else ctl.release_barrier();
@@ -461,7 +481,36 @@ static AbfOutcome abf_execute(AbfCase const &c, std::vector<int> const &prefix)
       }
     if (out.problem.empty() && total == 0) { out.problem = "HARNESS: no CZAR samples collected"; out.sig = "harness"; }
   }
-  if (out.done && !c.czar) {
+  if (out.done && c.opes) {
+    // every walker must hold the same kernels: one for each (walker, deposition step), each exactly once
+    std::vector<double> expect;
+    for (long st = c.freq; st < c.L; st += c.freq) for (int w = 0; w < c.n; w++) expect.push_back(opes_pos(w, st));
+    std::sort(expect.begin(), expect.end());
+    std::string first;
+    for (int i = 0; i < c.n && out.problem.empty(); i++) {
+      if (ctl.w[i].errors) { out.problem = "walker " + std::to_string(i) + " reported errors: " + ctl.w[i].errtxt; out.sig = "error-during-sharing"; break; }
+      std::string d = ctl.query(i, "O");
+      out.data += d + "|";
+      if (i == 0) first = d;
+      else if (d != first) { out.problem = "OPES data of walker " + std::to_string(i) + " differ from walker 0: " + d + " vs " + first; out.sig = "opes:walkers-hold-different-kernels"; break; }
+      std::istringstream is(d);
+      long counter = 0, nk = 0; std::string sw, zed;
+      is >> counter >> sw >> zed >> nk;
+      std::vector<double> centres;
+      for (long k = 0; k < nk; k++) { std::string h, cc, sg; is >> h >> cc >> sg; centres.push_back(atof(cc.c_str())); }
+      std::sort(centres.begin(), centres.end());
+      bool same = centres.size() == expect.size();
+      for (size_t k = 0; same && k < centres.size(); k++) if (std::fabs(centres[k] - expect[k]) > 1e-9) same = false;
+      if (!same) {
+        out.problem = "OPES kernels of walker " + std::to_string(i) + ": " + std::to_string(centres.size()) + " kernels, expected " + std::to_string(expect.size()) + " (one per walker and deposition step); data: " + d;
+        out.sig = std::string("opes:kernels-differ-from-union") + (centres.size() > expect.size() ? ":counted-more-than-once" : (centres.size() < expect.size() ? ":kernels-missing" : ":centres"));
+      } else if (counter != 1 + (long) expect.size()) {
+        out.problem = "OPES kernel counter of walker " + std::to_string(i) + " is " + std::to_string(counter) + ", expected " + std::to_string(1 + expect.size());
+        out.sig = "opes:counter";
+      }
+    }
+  }
+  if (out.done && !c.czar && !c.opes) {
     for (int i = 0; i < c.n && out.problem.empty(); i++) {
       if (ctl.w[i].errors) { out.problem = "walker " + std::to_string(i) + " reported errors: " + ctl.w[i].errtxt; out.sig = "error-during-sharing"; break; }
       std::string d = ctl.query(i, "Q");
@@ -508,7 +557,7 @@ static void abf_explore(AbfCase const &c, std::vector<int> const &prefix, int de
   if (real) r.seen("nontrivial", fnv(cj + sch));
   if (!o.problem.empty()) {
     if (o.sig == "harness") { fprintf(stderr, "HARNESS-ERROR: %s\n", o.problem.c_str()); exit(2); }
-    r.violation(std::string("C14:abf:") + o.sig + (c.restart_walker >= 0 ? ":with-restart" : "") + (c.rendezvous ? ":rendezvous-send" : ":buffered-send"),
+    r.violation(std::string(c.opes ? "C14:" : "C14:abf:") + o.sig + (c.restart_walker >= 0 ? ":with-restart" : "") + (c.rendezvous ? ":rendezvous-send" : ":buffered-send"),
                 cj.substr(0, cj.size() - 1) + ",\"schedule\":" + sch + ",\"problem\":\"" + jesc(o.problem.substr(0, 300)) + "\"}");
     stop = true;
     return;
@@ -714,6 +763,10 @@ int main(int argc, char **argv)
       std::vector<std::vector<int>> wz = {{0, 1, 2, 3, 0, 2, 1}, {3, 2, 0, 1, 1, 0, 3}, {2, 3, 3, 2, 2, 3, 2}, {0, 0, 1, 0, 1, 1, 0}};
       AbfCase z3{3, 4, 2, true, -1, wz, thorough ? 2 : 1}; z3.czar = true; abf.push_back(z3); z3.rendezvous = false; abf.push_back(z3);
     }
+    {
+      AbfCase o2{2, 5, 2, false, -1, w4, thorough ? 2 : 1}; o2.opes = true; abf.push_back(o2);
+      AbfCase o3{3, 5, 2, true, -1, w4, thorough ? 2 : 1}; o3.opes = true; abf.push_back(o3);
+    }
     if (thorough) {
       abf.push_back({4, 4, 2, false, -1, w4, 1});                     // four walkers
       abf.push_back({4, 4, 2, true, 1, w4, 1});
@@ -776,7 +829,7 @@ int main(int argc, char **argv)
     for (size_t j = shard; j < njobs; j += nsh) {
       if (j < abf.size()) {
         AbfCase const &c = abf[j];
-        std::string cj = "{\"part\":\"shared ABF\",\"walkers\":" + std::to_string(c.n) + ",\"steps\":" + std::to_string(c.L) + ",\"sharedFreq\":" + std::to_string(c.freq) + (c.czar ? ",\"variable\":\"extended-Lagrangian (CZAR gathered at end of run)\"" : "") +
+        std::string cj = std::string("{\"part\":\"") + (c.opes ? "OPES multiple walkers" : "shared ABF") + "\",\"walkers\":" + std::to_string(c.n) + ",\"steps\":" + std::to_string(c.L) + ",\"sharedFreq\":" + std::to_string(c.freq) + (c.czar ? ",\"variable\":\"extended-Lagrangian (CZAR gathered at end of run)\"" : "") +
                          ",\"send\":\"" + (c.rendezvous ? "rendezvous" : "buffered") + "\",\"restart\":\"" + (c.restart_walker < 0 ? "none" : (c.restart_walker == 2 ? "all walkers, binary state" : (c.restart_walker == 3 ? "all walkers, text state without last-exchange record" : "all walkers, text state"))) + "\",\"restart_after_step\":" + std::to_string(c.restart_walker >= 0 ? c.stop_step() : -1) + ",\"deviation_bound\":" + std::to_string(c.bound) + "}";
         bool stop = false;
         long nexec = 0;
